@@ -247,3 +247,11 @@ def scalar_class(a):
 
 def exc_name(e):
     return type(e).__name__
+
+
+def srepr(o, n=200):
+    """repr that never raises (DiscretizedSpace.__repr__ raises for array weightings)."""
+    try:
+        return repr(o)[:n]
+    except Exception as e:
+        return '<%s; repr raises %s>' % (type(o).__name__, type(e).__name__)
